@@ -36,7 +36,8 @@ def run(chk):
   chk.rule('C14-R1', 'every read of a grounded / external table records a '
            'dependency edge (reader = top of the workflow stack) before any '
            'return; edge direction agrees between compiler and executor; only '
-           'the iteration closure suppresses edges', min_instances=7)
+           'the iteration closure suppresses edges; renaming a predicate renames '
+           'both ends of its edges', min_instances=9)
   v = FnView(repo, TTAF)
   app = appends_to(v, 'dependency_edges')
   off = false_branches(v, 'edge_needed')
@@ -126,6 +127,44 @@ def run(chk):
   chk.ob('C14-R1', req, None, "query actions get 'requires' from depends_on",
          'table-producing actions are configured without their requirements',
          fi=ex)
+
+  rn = FnView(repo, 'concertina_lib.RenamePredicate')
+  params = rn.fi.params
+  if 'to_name' not in params or 'from_name' not in params:
+    raise AnalysisError('concertina_lib.RenamePredicate signature changed')
+
+  def renamed(e):
+    """Expression is subject to the rename: mentions to_name, calls a local
+    helper that does, or is a variable conditionally re-assigned to_name."""
+    for x in ast.walk(e):
+      if isinstance(x, ast.Name) and x.id == 'to_name':
+        return True
+      if isinstance(x, ast.Call) and isinstance(x.func, ast.Name) and x.func.id in rn.fi.nested:
+        sub = rn.fi.nested[x.func.id]
+        if any(isinstance(y, ast.Name) and y.id == 'to_name' for y in ast.walk(sub.node)):
+          return True
+      if isinstance(x, ast.Name):
+        for d in rn.assigned_from(x.id):
+          if isinstance(d, ast.AST) and any(isinstance(y, ast.Name) and y.id == 'to_name'
+                                            for y in ast.walk(d)):
+            return True
+    return False
+  tuples = []
+  for x in walk_local(rn.fi.node):
+    if isinstance(x, ast.Call) and call_tail(x) == 'add' and x.args and \
+        isinstance(x.args[0], ast.Tuple) and len(x.args[0].elts) == 2:
+      tuples.append(x.args[0])
+    if isinstance(x, (ast.SetComp, ast.ListComp, ast.GeneratorExp)) and \
+        isinstance(x.elt, ast.Tuple) and len(x.elt.elts) == 2:
+      tuples.append(x.elt)
+  if len(tuples) < 2:
+    raise AnalysisError('RenamePredicate: rebuilt edge tuples not recognised')
+  for t in tuples:
+    chk.ob('C14-R1', all(renamed(e) for e in t.elts), None,
+           'renaming a predicate renames both ends of every edge: %s' % norm(t, 50),
+           'only one end of the edge %s is renamed: edges into (or out of) the '
+           'renamed predicate keep the old name, so it loses its requirements '
+           'and may run before its inputs' % norm(t, 50), fi=rn.fi, node=t)
 
   chk.rule('C14-R2', 'workflow stack push/pop bracket the recursive '
            'PredicateSql; FormattedPredicateSql asserts the stack is [name]; '
